@@ -197,7 +197,7 @@ func (t *DateTime) WithZone(zone *Timezone) *DateTime {
 func (t *DateTime) Add(val Value) (Value, Value) {
 	switch val.flag {
 	case DATE_SPAN_FLAG:
-		return Ref(t.AddTimeSpan(val.AsInlineTimeSpan())), Undefined
+		return Ref(t.AddDateSpan(val.AsInlineDateSpan())), Undefined
 	case TIME_SPAN_FLAG:
 		return Ref(t.AddTimeSpan(val.AsInlineTimeSpan())), Undefined
 	case REFERENCE_FLAG:
@@ -262,7 +262,7 @@ func (t *DateTime) AddDateSpan(val DateSpan) *DateTime {
 func (t *DateTime) Subtract(val Value) (Value, Value) {
 	switch val.flag {
 	case DATE_SPAN_FLAG:
-		return Ref(t.SubtractTimeSpan(val.AsInlineTimeSpan())), Undefined
+		return Ref(t.SubtractDateSpan(val.AsInlineDateSpan())), Undefined
 	case TIME_SPAN_FLAG:
 		return Ref(t.SubtractTimeSpan(val.AsInlineTimeSpan())), Undefined
 	case REFERENCE_FLAG:
@@ -300,7 +300,7 @@ func (t *DateTime) SubtractTimeSpan(val TimeSpan) *DateTime {
 
 func (t *DateTime) Diff(val Value) (Value, Value) {
 	switch val.flag {
-	case DATE_SPAN_FLAG:
+	case DATE_FLAG:
 		return Ref(t.DiffDate(val.AsDate())), Undefined
 	case REFERENCE_FLAG:
 	default:
